@@ -261,6 +261,9 @@ func (c *StoreCfg) DrawEvent(t *rapid.T) *mocrelay.Event {
 			var id string
 			if len(ids) > 0 && rapid.IntRange(0, 7).Draw(t, label+"known") != 0 {
 				id = rapid.SampledFrom(ids).Draw(t, label+"id")
+			} else if rapid.IntRange(0, 5).Draw(t, label+"malformed") == 0 {
+				// a reference that names nothing (tag values are free text): it is simply no target
+				id = rapid.SampledFrom([]string{"", "xyz", "0123", "not-an-id"}).Draw(t, label+"malformedv")
 			} else {
 				id = FakeID(rapid.IntRange(0, 3).Draw(t, label+"fake"))
 			}
@@ -297,7 +300,10 @@ func (c *StoreCfg) DrawEvent(t *rapid.T) *mocrelay.Event {
 	// generic tags
 	n := rapid.IntRange(0, 3).Draw(t, "ntags")
 	for i := 0; i < n; i++ {
-		switch rapid.IntRange(0, 10).Draw(t, "tagkind") {
+		switch rapid.IntRange(0, 11).Draw(t, "tagkind") {
+		case 11:
+			// the ends of the single-letter range (indexable like any other letter)
+			ev.Tags = append(ev.Tags, mocrelay.Tag{rapid.SampledFrom([]string{"z", "Z", "A", "b", "y"}).Draw(t, "edgename"), rapid.SampledFrom([]string{"x", "y"}).Draw(t, "edgeval")})
 		case 10:
 			ev.Tags = append(ev.Tags, rapid.SampledFrom(ProtocolTags).Draw(t, "ptag"))
 		case 9:
@@ -328,6 +334,10 @@ func (c *StoreCfg) DrawEvent(t *rapid.T) *mocrelay.Event {
 		ev.Content = UnicodeString(12).Draw(t, "content")
 	} else {
 		ev.Content = rapid.SampledFrom([]string{"", "a", "b", "c"}).Draw(t, "content")
+	}
+	// tags come in any order: the d tag (the first one counts) is not always the first tag
+	if len(ev.Tags) >= 2 && len(ev.Tags) <= 12 && rapid.Bool().Draw(t, "shuffletags") {
+		ev.Tags = rapid.Permutation(ev.Tags).Draw(t, "tagorder")
 	}
 	Seal(ev)
 	w.Events = append(w.Events, ev)
